@@ -579,9 +579,11 @@ Qed.
 
 Lemma call_cb_ok scripts fuel : call_ok (call_cb false scripts fuel).
 Proof.
-  induction fuel as [|f IH]; intros u c k rn st I; cbn.
+  induction fuel as [|f IH]; intros u c k rn st I; cbn [call_cb].
   - apply Inv_emit_harmless; cbn; auto.
-  - apply exec_ops_inv; auto.
+  - destruct (MAXLOG <? Z.of_nat (length (log (emit (ECall (now st) u c k rn) st)))).
+    + apply Inv_emit_harmless; cbn; auto.
+    + apply exec_ops_inv; auto.
 Qed.
 
 Lemma Inv_with_now t st : Inv st -> Inv (mkS t (next st) (dict st) (timers st) (log st)).
